@@ -107,6 +107,10 @@ def scenarios(tier, seed):
     for kind in ["int32", "uint8", "int16", "uint64", "float32", "datetime_s", "datetime_ms", "datetime_ns"]:
         probes = [[h, kw, kind] for h, kw in VARIANTS if ok_combo(h, "datetime" if kind.startswith("datetime_") else "int")]
         sc.append(one(f"narrow:{kind}", [], probes))
+    # 9. ONE helper object applied to columns of different dtypes in turn (a kept dict of summaries): nothing learnt from an earlier column may leak
+    for order in (["floatna", "date", "datetime_s", "int", "floatna"], ["date", "floatna", "datetime", "bool", "date"]):
+        probes = [[h, kw, kind] for h, kw in (("min", {}), ("max", {}), ("mode", {}), ("first", {"drop_na": True}), ("nth", {"index": 0, "drop_na": True})) for kind in order]
+        sc.append(one(f"reused-helper:{order[0]}-first", [], probes))
     if tier == "thorough":
         for kind in KINDS:
             for (a, akw), (b, bkw) in itertools.permutations(VARIANTS, 2):
